@@ -711,6 +711,10 @@ func (rt *runtime) toValue(value interface{}) Value {
 		case reflect.Array:
 			return objectValue(rt.newGoArray(val))
 		case reflect.Func:
+			if val.IsNil() {
+				// Nothing to call.
+				return nullValue
+			}
 			var name, file string
 			var line int
 			if v := reflect.ValueOf(val); v.Kind() == reflect.Ptr {
